@@ -610,6 +610,30 @@ func main() {
 		}
 	}
 
+	chM := vh.NewChannel("maintainer.seq", "real fracmanager.CacheMaintainer (docs layer caches created through it, lookups, Release, whole maintenance ticks = one synchronous run of the RunCleanLoop body with / without garbageCollection) vs SV.Cache.runSeq with tickOps: values, getSize after every op, final buckets / generations / payloads; non-trivial = a tick changed the accounted size")
+	orcM := vh.NewOracle("maintainer.property", "real CacheMaintainer + frac.IndexCache after every op: per cleaner getSize = bytes held by caches whose owner has not released them; after IndexCache.Release every cache of the set is released; after a gc tick none of them is a bucket; after any quiet tick getSize <= limit for every cleaner; non-trivial = the history contains a tick above the limit or a released index cache set")
+	addMaint := func(total uint64, ops []string, tags ...string) {
+		current.Store(fmt.Sprintf("maint %d %s", total, strings.Join(ops, ";")))
+		progress.Add(1)
+		req, impl, viol, err := runMaint(total, ops)
+		if err != nil {
+			rep.Note("generator bug (maint): %v", err)
+			return
+		}
+		nt := false
+		toks := strings.Split(strings.SplitN(strings.TrimPrefix(impl, "ok "), " | ", 2)[0], ";")
+		for i, tk := range toks {
+			if i > 0 && (strings.HasPrefix(tk, "t@") || strings.HasPrefix(tk, "T@")) && tk[2:] != toks[i-1][strings.Index(toks[i-1], "@")+1:] {
+				nt = true
+			}
+		}
+		chM.Add(req, impl, nt, tags...)
+		orcM.Case(req+" "+strings.Join(ops, ";"), nt || strings.Contains(strings.Join(ops, ";"), "J"), tags...)
+		if viol != nil {
+			rep.Violate(*viol)
+		}
+	}
+
 	if o.Replay != "" {
 		lines, err := vh.ReadReplay(o.Replay)
 		if err != nil {
@@ -621,6 +645,10 @@ func main() {
 			if len(f) == 4 && f[0] == "seq" {
 				lim, _ := strconv.ParseUint(f[1], 10, 64)
 				addSeq(lim, strings.Split(f[3], ";"), "replay")
+			}
+			if len(f) == 3 && f[0] == "maint" {
+				tot, _ := strconv.ParseUint(f[1], 10, 64)
+				addMaint(tot, strings.Split(f[2], ";"), "replay")
 			}
 			if len(f) == 3 && f[0] == "sched" {
 				lim, _ := strconv.ParseUint(f[1], 10, 64)
@@ -798,6 +826,32 @@ func main() {
 			runStress(rep, orc, o.Seed*10+int64(i), o.Pick(8, 16), o.Pick(20000, 150000))
 		}
 	}
+	if o.Replay == "" {
+		// 7. the maintainer's tick and index-cache sets.  Directed: the total crosses the limit while the last generation
+		//    is below Rotate's 5% (98.7% old + 2.6% fresh), with and without a rotation in the same tick; an index cache
+		//    set populated, released, collected
+		esB := int(cache.NewCache[[]byte](nil, nil).VerifEntrySize())
+		for _, lim := range []int{10000, 40000} {
+			big, small := lim*987/1000-esB, lim*26/1000-esB
+			for _, sc := range []string{
+				fmt.Sprintf("n;g0.1.1.%d;t;g0.2.2.%d;t;t", big, small),
+				fmt.Sprintf("n;g0.1.1.%d;T;g0.2.2.%d;T;g0.3.3.%d;T", big, small, small),
+				fmt.Sprintf("n;n;g0.1.1.%d;t;g1.1.2.%d;g1.2.3.%d;t;x0;T;g1.3.4.%d;t", big/2, big/2, small, big),
+				fmt.Sprintf("n;g0.1.1.%d;g0.2.2.%d;t;g0.3.3.%d;t", big, small*3, small),
+				fmt.Sprintf("n;I%d;g0.1.1.%d;t;J0;T;g0.2.2.%d;T", lim/10, big, small),
+				fmt.Sprintf("I%d;I%d;J0;t;T;J1;T;n;g0.1.1.%d;T", lim/20, lim/3, small),
+			} {
+				addMaint(totalFor(uint64(lim)), strings.Split(sc, ";"), "directed")
+			}
+		}
+		for i := 0; i < o.Pick(300, 6000); i++ {
+			tot, ops := genMaint(rng, rng.Range(4, 40))
+			addMaint(tot, ops, "random")
+		}
+	}
+	progress.Add(1)
+	rep.AddChannel(chM, o.Driver)
+	rep.AddOracle(orcM)
 	progress.Add(1)
 	rep.AddChannel(chTr, o.Driver)
 	progress.Add(1)
